@@ -192,13 +192,25 @@ LockSucced(mm, e, r, k) ==
         i == IdxOfLid(H, r.lid)
         wasQueued == r.st = "queued"
         m0 == IF wasQueued THEN DropFromWq(CheckGrantOrder(mm, e, r, k), k, r.id) ELSE mm
+        \* C04: a NEWCOMER (never queued, not a holder of the key) is granted although a live request of equal or
+        \* higher priority is queued on the key: newcomers queue behind waiters (the `waited` flag); only a strictly
+        \* higher priority may pass.  Judged in sequential histories (the queue is then exactly what the events say);
+        \* waiters of the wait-until-unlocked kind do not hold newcomers back (they wait for the key to be released).
+        ahead == {id \in {WqOf(mm, k)[j] : j \in 1..Len(WqOf(mm, k))} :
+                     /\ id # r.id /\ mm.reqs[id].st = "queued"
+                     /\ ~Bit(mm.reqs[id].tf, TF_WAITUNLOCK)
+                     /\ Prio(mm.reqs[id]) >= Prio(r)}
+        m00 == IF mm.seq /\ mm.status = 1 /\ ~wasQueued /\ i = 0 /\ r.ex > 0 /\ H # <<>>
+               THEN Check(m0, ahead = {}, "C04", "newcomer-overtakes-queued-request", e,
+                          [granted |-> r.id, prio |-> Prio(r), waiting |-> SetToSeq(ahead)])
+               ELSE m0
     IN
     IF r.ex = 0 THEN m0      \* success without a hold (a zero-expiry hold ends at once)
     ELSE IF i = 0 \/ wasQueued
     THEN \* new holder: the C01 clause
          \* (a QUEUED request granted while its LockId already holds the key is a second grant to that
          \*  LockId, not a re-lock: C02 allows at most Rcount further successes - reported under its own code)
-         LET mq == Check(m0, i = 0, "C02", "queued-request-granted-to-holding-lockid", e,
+         LET mq == Check(m00, i = 0, "C02", "queued-request-granted-to-holding-lockid", e,
                          [rid |-> r.id, key |-> r.key, lid |-> r.lid, rc |-> r.rc])
              m1 == Check(mq, AdmissibleStmt(H, r.cnt), "C01", "grant-exceeds-count", e,
                          [rid |-> r.id, key |-> r.key, lid |-> r.lid, cnt |-> r.cnt, outstanding |-> DepthSum(H),
